@@ -56,7 +56,7 @@ def main():
             if shown < int(os.environ.get('SHOW', '8')):
                 shown += 1
                 print('VIOL', v['label'], '|', v['case'], '|', v['witness'] and callshape.render_call(v['witness']),
-                      '|', json.dumps(v['info'], default=repr)[:300], '| dec=', v['decisions'])
+                      '|', json.dumps(v['info'], default=repr)[:int(os.environ.get('INFO_LEN', '300'))], '| dec=', v['decisions'])
     print('paths', n, 'nontrivial', nontriv, 'viol', dict(viol), 'z3', solver.stats(), 'wall %.1fs' % (time.time() - t0))
     print(dict(counters))
 
